@@ -43,8 +43,22 @@ const (
 )
 
 func (c *Ctx) NewBaseMem(region string, arity int, s Sort, tag string) *Mem {
-	return &Mem{kind: MBase, Name: region, Arity: arity, Sort: s, base: c.FreshName("M_" + region + "_" + tag)}
+	return &Mem{kind: MBase, Name: region, Arity: arity, Sort: s, base: sanitize(c.FreshName("M_" + region + "_" + tag))}
 }
+
+// SetBaseTop records the allocation frontier of a base memory: every reference it holds in a cell of an
+// object that existed at that time is below the frontier.
+func (c *Ctx) SetBaseTop(m *Mem, top *Term) {
+	if c.BaseTop == nil {
+		c.BaseTop = map[string]*Term{}
+	}
+	if m.kind == MBase {
+		c.BaseTop[m.base] = top
+	}
+}
+
+// RawOf returns the fresh base introduced by a havoc node.
+func (m *Mem) RawOf() *Mem { return m.raw }
 
 // ConstMem is a region whose every cell holds v (e.g. the empty set).
 func (c *Ctx) ConstMem(region string, arity int, v *Term) *Mem {
